@@ -170,7 +170,10 @@ class FakeData:
         # access to persistent state
         self.faker_context = faker_context
 
-        faker = Faker(locale, use_weighting=False)
+        try:
+            faker = Faker(locale, use_weighting=False)
+        except AttributeError as e:  # Faker's way of rejecting an unknown locale
+            raise exc.DataGenValueError(f"Unknown locale `{locale}`: {e}") from e
         for provider in faker_providers:
             faker.add_provider(provider)
 
